@@ -12,13 +12,15 @@
                        TOP-LEVEL nodes of setup_body (ServoDecl, LCDDecl) and of loop_body
                        (ServoDecl only - there is no LCDDecl branch in the loop_body scan);
                        bodies of if/while/for/try and of functions are never scanned.
-                       _ensure_lcd_globals returns early when the LCD *name* is already
-                       registered, so for a name declared twice only the first declaration
-                       sets a flag;
+                       _ensure_lcd_globals runs for EVERY top-level LCDDecl of setup_body and
+                       sets the flag of its interface, also when the name was declared before
+                       (a re-bound name defines a further display);
    * [servo_objs]/[lcd_objs]/[instantiated] = the global object definitions
                        "Servo __servo_<n>;", "LiquidCrystal __redu_lcd_<n>(..);",
                        "LiquidCrystal_I2C __redu_lcd_<n>(..);" appended to globals_ by the same
-                       two helpers (deduplicated by line text / by registered name).
+                       two helpers.  Servo: deduplicated by line text.  LCD: one object per
+                       declaration; the k-th further declaration of a name n (k >= 1) is
+                       "__redu_lcd<k+1>_<n>" (model: binding index k, 0 = "__redu_lcd_<n>").
 
    The IR is reduced to the skeleton that these computations can see.  No proofs here. *)
 From Coq Require Import ZArith List Bool.
@@ -135,22 +137,18 @@ Fixpoint zmem (x : Z) (l : list Z) : bool :=
    and of loop_body *)
 Definition servo_used (p : prog) : bool := existsb is_servo (setup p) || existsb is_servo (loop p).
 
-(* lcd_parallel_used / lcd_i2c_used: scan of the top level of setup_body;
-   [seen] = names already in lcd_state (first declaration of a name wins) *)
-Fixpoint lcd_flags (seen : list Z) (l : list node) : bool * bool :=
+(* lcd_parallel_used / lcd_i2c_used: scan of the top level of setup_body; every LCDDecl sets
+   the flag of its interface *)
+Fixpoint lcd_flags (l : list node) : bool * bool :=
   match l with
   | [] => (false, false)
-  | NLcdPar x :: r =>
-      if zmem x seen then lcd_flags seen r
-      else let '(a, b) := lcd_flags (x :: seen) r in (true, b)
-  | NLcdI2c x :: r =>
-      if zmem x seen then lcd_flags seen r
-      else let '(a, b) := lcd_flags (x :: seen) r in (a, true)
-  | _ :: r => lcd_flags seen r
+  | NLcdPar x :: r => let '(a, b) := lcd_flags r in (true, b)
+  | NLcdI2c x :: r => let '(a, b) := lcd_flags r in (a, true)
+  | _ :: r => lcd_flags r
   end.
 
-Definition par_used (p : prog) : bool := fst (lcd_flags [] (setup p)).
-Definition i2c_used (p : prog) : bool := snd (lcd_flags [] (setup p)).
+Definition par_used (p : prog) : bool := fst (lcd_flags (setup p)).
+Definition i2c_used (p : prog) : bool := snd (lcd_flags (setup p)).
 
 (* the "Stitch sections" block: the #include lines after HEADER, in order *)
 Definition headers (p : prog) : list header :=
@@ -183,24 +181,46 @@ Fixpoint dedup (seen : list Z) (l : list Z) : list Z :=
 Definition servo_objs (p : prog) : list Z :=
   dedup [] (servo_names (setup p) ++ servo_names (loop p)).
 
-(* (is_i2c, name) of the definitions "LiquidCrystal[_I2C] __redu_lcd_n(...);" in textual order *)
-Fixpoint lcd_scan (seen : list Z) (l : list node) : list (bool * Z) :=
+(* how many of the names in [l] are [x] *)
+Fixpoint count (x : Z) (l : list Z) : Z :=
+  match l with [] => 0 | y :: r => (if x =? y then 1 else 0) + count x r end.
+
+(* one display object per declaration *)
+Record lcd_obj : Type := mkObj {
+  o_i2c : bool;                           (* class: LiquidCrystal_I2C (true) / LiquidCrystal *)
+  o_name : Z;                             (* the script variable *)
+  o_index : Z                             (* binding index: earlier declarations of that name *)
+}.
+
+(* the definitions "LiquidCrystal[_I2C] __redu_lcd[<k+1>]_n(...);" in textual order;
+   [seen] = names of the LCD declarations scanned so far, with multiplicity (the length of the
+   emitter's per-name "bindings" list) *)
+Fixpoint lcd_scan (seen : list Z) (l : list node) : list lcd_obj :=
   match l with
   | [] => []
-  | NLcdPar x :: r => if zmem x seen then lcd_scan seen r else (false, x) :: lcd_scan (x :: seen) r
-  | NLcdI2c x :: r => if zmem x seen then lcd_scan seen r else (true, x) :: lcd_scan (x :: seen) r
+  | NLcdPar x :: r => mkObj false x (count x seen) :: lcd_scan (x :: seen) r
+  | NLcdI2c x :: r => mkObj true x (count x seen) :: lcd_scan (x :: seen) r
   | _ :: r => lcd_scan seen r
   end.
 
-Definition lcd_objs (p : prog) : list (bool * Z) := lcd_scan [] (setup p).
+Definition lcd_objs (p : prog) : list lcd_obj := lcd_scan [] (setup p).
+
+(* the top-level LCD declarations of a body: (is_i2c, name) in order *)
+Fixpoint lcd_decls (l : list node) : list (bool * Z) :=
+  match l with
+  | [] => []
+  | NLcdPar x :: r => (false, x) :: lcd_decls r
+  | NLcdI2c x :: r => (true, x) :: lcd_decls r
+  | _ :: r => lcd_decls r
+  end.
 
 Definition nonempty {A} (l : list A) : bool := match l with [] => false | _ => true end.
 
 (* the library classes of which the emitted source defines at least one object *)
 Definition instantiated (p : prog) : list lib :=
   opt_lib (nonempty (servo_objs p)) LServo ++
-  opt_lib (existsb (fun o => negb (fst o)) (lcd_objs p)) LLiquidCrystal ++
-  opt_lib (existsb (fun o => fst o) (lcd_objs p)) LLiquidCrystalI2C.
+  opt_lib (existsb (fun o => negb (o_i2c o)) (lcd_objs p)) LLiquidCrystal ++
+  opt_lib (existsb o_i2c (lcd_objs p)) LLiquidCrystalI2C.
 
 (* ---------------------------------------------------------------- the guard (executable) *)
 (* no [f]-node strictly below the top level of [l] *)
@@ -215,7 +235,8 @@ Fixpoint par_names (l : list node) : list Z :=
 Fixpoint i2c_names (l : list node) : list Z :=
   match l with [] => [] | NLcdI2c x :: r => x :: i2c_names r | _ :: r => i2c_names r end.
 
-(* no LCD variable is bound to both interfaces (outside: finding F-C14-lcd-rebind) *)
+(* no LCD variable is bound to both interfaces.  NOT part of the guard any more (the finding
+   F-C14-lcd-rebind is repaired): kept as the classifier of the region it used to exclude *)
 Definition lcd_names_consistent (l : list node) : bool :=
   forallb (fun x => negb (zmem x (i2c_names l))) (par_names l).
 
@@ -230,7 +251,7 @@ Definition lcds_documented (p : prog) : bool :=
   absent is_lcd (globals p) && forallb (absent is_lcd) (functions p).
 
 Definition decls_at_documented_positions (p : prog) : bool :=
-  servos_documented p && lcds_documented p && lcd_names_consistent (setup p).
+  servos_documented p && lcds_documented p.
 
 (* the property's relation, as a boolean *)
 Fixpoint libs_eqb (a b : list lib) : bool :=
